@@ -47,6 +47,10 @@ NEEDS = {
  "C06-4": "two or more tile matrices, an outer ring that collapses on the coarse level only and a further ring, KeepPointsAndLines off (segment loop ranges over the requested levels instead of the live level set)",
  "C06-5": "level 32 (WebMercatorQuad id 20) and a vertex in the last pixel column or row (ToZ range check < instead of <=)",
  "C06-6": "a spike near the end of a ring that snapping has filled with extra points (corpus sliced past the ring's length)",
+ "C14-4": "a tile matrix set whose ids are consecutive but do not start at 0 (new RootTMID helper replaces the hard-coded id 0; the missing-matrix-0 error of DeviationStats disappears)",
+ "C09-4": "an outside vertex that directly follows an inside vertex within about 1e-6 relative distance (InsertPolygon skips 'repeated' vertices with a tolerant comparison)",
+ "C03-4": "EuropeanETRS89_LAEAQuad ids 11, 14, 15 and many UPS ids (level derived from the float ratio of cell sizes, truncated: one level too shallow)",
+ "C15-4": "a lat/lon-ordered set and a second call on the same tile matrix (helper swaps the shared PointOfOrigin array in place through the pointer)",
  "C06-1": "a ring starting with a zig-zag whose forward matches outnumber the reverse ones by two or more (removal range computed from the wrong count: slice bounds out of range)",
  "C06-2": "a zig-zag directly followed by another step back (scan resumes on the last removed vertex: overlapping removal ranges)",
  "C06-3": "a zig-zag long enough for a second corpus expansion (corpus grows by 3 segments, its end marker by 2)",
